@@ -1058,6 +1058,7 @@ func runC18(c *Check, a *Analysis) {
 	// ---- R-BOUNDED-WAIT
 	c.Rule("R-BOUNDED-WAIT", "every receive from a waiter's Done channel is a select arm next to a timer armed from Client.DialTimeout; the timer arm unregisters the waiter under Client.lock and yields ErrTimeout; a caller waits at most once (director does not re-enter itself)", 2)
 	ruleNoRewait(c, a, "R-BOUNDED-WAIT")
+	ruleWaiterPool(c, a, "R-BOUNDED-WAIT")
 	nsel := 0
 	for _, fn := range p.Fns {
 		eachInstr(fn, func(in ssa.Instruction) {
